@@ -565,11 +565,11 @@ pub fn run(ctx: &mut Ctx) {
         "SET_LOG_FD and SET_LOG_BASE without a shared-memory region cannot be served by this back-end server and are skipped in sessions".into(),
         "handler results are always success here (failures: C03)".into(),
     ];
-    let n = ctx.tier.pick(2500u32, 60_000u32);
+    let n = ctx.tier.pick(2500u32, 400_000u32);
     let strat = (neg_strategy(), proptest::collection::vec(op_strategy(), 1..24)).prop_map(|(neg, ops)| SessCase { neg, ops });
     ctx.prop_check("sessions", n, strat, |ctx, c| run_session(ctx, c));
 
-    let n = ctx.tier.pick(20_000u32, 300_000u32);
+    let n = ctx.tier.pick(20_000u32, 3_000_000u32);
     let st = (
         prop_oneof![Just(1u64), Just(2), Just(255), Just(256), Just(257), Just(0x8000)],
         prop_oneof![Just(0u64), Just(spec::VIRTIO_F_PROTOCOL_FEATURES | 1 << 32)],
@@ -581,7 +581,7 @@ pub fn run(ctx: &mut Ctx) {
     let rej = (st, op_strategy()).prop_map(|(st, op)| RejCase { st, op });
     ctx.prop_check("locally_rejected_raw_peer", n, rej, |ctx, c| run_rej(ctx, c));
 
-    let n = ctx.tier.pick(3000u32, 100_000u32);
+    let n = ctx.tier.pick(3000u32, 1_000_000u32);
     let ad = (any::<bool>(), proptest::collection::vec((0u8..14, crate::engine::lat64(), crate::engine::lat64(), crate::engine::lat64()), 1..20)).prop_map(|(refcell, ops)| adapters::AdCase { refcell, ops });
     ctx.prop_check("rwlock_refcell_adapters", n, ad, |ctx, c| adapters::run_ad(ctx, c));
 }
